@@ -28,6 +28,7 @@ M = [
  ("C04-invert-keeps-preserve", "grading/chop.py", "        if self.preserve == \"start_size\":\n            self.preserve = \"end_size\"\n        elif self.preserve == \"end_size\":\n            self.preserve = \"start_size\"", "        pass", ["C04"]),
  ("C04-is-simple-always", "items/wires/manager.py", "            if wire.grading != first_grading:\n                return False", "            if wire.grading != first_grading:\n                return True", ["C04"]),
  ("C04-no-reversed-chops", "items/wires/axis.py", "for chop in reversed(neighbour.wires.chops):", "for chop in neighbour.wires.chops:", ["C04"]),
+ ("C04-later-edges-not-handed-back", "mesh.py", "                    if wire.edge.kind == \"line\":", "                    if False:", ["C04"]),
  ("C05-no-sort", "lists/vertex_list.py", "        slave_patches.sort()\n", "", ["C05"]),
  ("C05-tol-x1000", "lists/vertex_list.py", "if f.norm(position - dupe.point) < constants.TOL:", "if f.norm(position - dupe.point) < 1000 * constants.TOL:", ["C05"]),
  ("C05-tol-div100", "lists/vertex_list.py", "if f.norm(position - dupe.point) < constants.TOL:", "if f.norm(position - dupe.point) < constants.TOL / 100:", ["C05"]),
